@@ -3,7 +3,7 @@ import os, itertools
 import numpy as np
 from . import core
 
-FAMILIES = ['missratio', 'concave', 'convex', 'plateau', 'collinear0', 'walk', 'vshape', 'elbows', 'steps', 'noisyline', 'zeros']
+FAMILIES = ['missratio', 'concave', 'convex', 'plateau', 'collinear0', 'walk', 'vshape', 'elbows', 'steps', 'noisyline', 'zeros', 'ramp0']
 
 
 def _xs(rng, n, gaps=(1, 2, 3, 4)):
@@ -70,6 +70,21 @@ def dyadic_curve(rng, n, family=None, scale_exp=None):
             y.append(cur)
             if rng.random() < 0.3:
                 cur = max(0.0, cur - rng.randrange(1, 10) * q)
+    elif family == 'ramp0':
+        # a hinge followed by a straight ramp that reaches EXACTLY y = 0, non-dyadic slope and x offset:
+        # the end-point line does not reproduce the zero bit-exactly, relative error metrics then see O(1) error
+        k = min(n, rng.choice([3, 3, 4, 5]))
+        step = rng.choice([0.1, 0.3, 1.0 / 3, 0.7, 1.1])
+        x0 = rng.choice([0.0, 1.0, 10.0, 10.1])
+        x = [x0 + step * i for i in range(n)]
+        slope = rng.choice([1.11, 0.37, 2.0 / 3, 1.0 / 7, 3.3])
+        tail = [slope * (k - 1 - i) * step for i in range(k)]
+        head, cur = [], tail[0] + rng.choice([0.5, 1.3, 2.7])
+        for _ in range(n - k):
+            head.append(cur + rng.choice([0.0, 0.4, 1.9]))
+            cur = head[-1] + rng.choice([0.2, 0.9])
+        y = head[::-1] + tail
+        x = x[:len(y)]
     elif family == 'zeros':
         # non-dyadic values with exact zeros: end-point lines that do not reproduce y = 0 bit-exactly
         den = rng.choice([3.0, 7.0, 10.0, 1.0])
